@@ -58,6 +58,8 @@ fn op(n: u8) -> Operation {
         0 => Operation::Create { uuid: u(1) },
         1 => Operation::Update { uuid: u(1), property: "p".into(), old_value: None, value: Some("é\u{0}".into()), timestamp: ts },
         2 => Operation::Delete { uuid: u(2), old_task: map(1) },
+        // a deleted task with many properties (a fresh hash map every time it is built)
+        4 => Operation::Delete { uuid: u(1), old_task: (0..8).map(|i| (format!("key{i}"), format!("value {i} \u{e9}"))).collect() },
         _ => Operation::UndoPoint,
     }
 }
@@ -254,7 +256,7 @@ pub async fn run_script(p: &mut Pair, script: &[Call]) -> Result<(bool, usize), 
 fn alphabet(full: bool) -> Vec<Call> {
     use Call::*;
     let mut v = vec![
-        CreateTask(1), SetTask(1, 2), DeleteTask(1), GetTask(1), AllTasks, Pending, SetBase(1), BaseVersion, AddOp(0), AddOp(1), AddOp(3), RemoveOp(1), Unsynced, TaskOps(1), SyncComplete, AddWs(1), AddWs(2),
+        CreateTask(1), SetTask(1, 2), DeleteTask(1), GetTask(1), AllTasks, Pending, SetBase(1), BaseVersion, AddOp(0), AddOp(1), AddOp(3), AddOp(4), RemoveOp(1), RemoveOp(4), Unsynced, TaskOps(1), SyncComplete, AddWs(1), AddWs(2),
         SetWs(1, 0), SetWs(1, 2), GetWs, ClearWs, IsEmpty, Commit, Abandon,
     ];
     if full {
@@ -317,14 +319,13 @@ fn run_scripts(rep: &Report, name: &str, scs: Vec<Vec<Call>>) {
                 calls += n as u64;
             }
             Err(e) => {
-                let again = crate::util::block_on(async {
-                    let mut p = Pair::new().await;
-                    run_script(&mut p, &scs[i]).await
+                let note = crate::util::confirm_or_exit("C16", &e, || {
+                    crate::util::block_on(async {
+                        let mut p = Pair::new().await;
+                        run_script(&mut p, &scs[i]).await.err()
+                    })
                 });
-                if again.as_ref().err() != Some(&e) {
-                    eprintln!("MACHINERY ERROR: C16 violation does not replay deterministically: {e} vs {again:?}");
-                    std::process::exit(2);
-                }
+                let e = format!("{e}{note}");
                 let class = e.split(' ').next().unwrap_or("").trim_end_matches(':').to_string();
                 let first_call = e.split(": ").nth(1).and_then(|s| s.split(' ').next()).unwrap_or("").to_string();
                 rep.violation(Violation::new(
